@@ -210,7 +210,7 @@ def describe(x: sched.Sched):
 
 
 def run_sched_case(case):
-    setup, nthreads, with_finalise, bound = case
+    setup, nthreads, with_finalise, bound, part = case
     make = make_system(setup, nthreads, with_finalise)
     fails = {}
     outcomes = Counter()
@@ -228,7 +228,7 @@ def run_sched_case(case):
                         raise RuntimeError(f"schedule {x.choices} does not replay deterministically")
                 fails[key] = (msg, list(x.choices), describe(x))
 
-    st = sched.explore(make, check, bound)
+    st = sched.explore(make, check, bound, part=(part, NPART))
     r = R(outcome=f"{setup}:{nthreads}t:outs{len(outcomes)}")
     r.counts = dict(
         schedules=st.schedules, transitions=st.points, states=st.distinct_traces,
@@ -248,18 +248,19 @@ def _winner(x):
     return "?"
 
 
+NPART = 8
+
+
 def sched_cases(tier):
-    # (setup, threads, with_finalise, preemption bound)
+    # (setup, threads, with_finalise, preemption bound, part of the schedule tree)
     for setup in SETUPS:
         if tier == "quick":
-            yield (setup, 2, False, 2)
-            yield (setup, 2, True, 2)
-            yield (setup, 3, False, 1)
+            base = [(setup, 2, False, 2), (setup, 2, True, 2), (setup, 3, False, 1)]
         else:
-            yield (setup, 2, False, 3)
-            yield (setup, 2, True, 3)
-            yield (setup, 3, False, 2)
-            yield (setup, 3, True, 2)
+            base = [(setup, 2, False, 3), (setup, 2, True, 3), (setup, 3, False, 2), (setup, 3, True, 2)]
+        for b in base:
+            for part in range(NPART):
+                yield (*b, part)
 
 
 def replay_sched(case):
